@@ -651,6 +651,7 @@ def run_sequence (case, rep):
            traceback.format_exc()[-700:]); return True
     out2 = sw2.take_bytes()
     rep.count("batch_compared")
+    rep.maxi("requests_in_one_delivery", len(reqs) // (len(cuts) + 1))
     def norm (b):
       # asynchronous messages carry freshly generated xids
       ms = decode_out(b, fire) or []
@@ -761,8 +762,14 @@ def do_case (case, rep):
 
 def plan (tier, seed):
   if tier == "quick":
-    return [dict(count=1200, n=12, sub=i) for i in range(16)]
-  return [dict(count=20000, n=40, sub=i) for i in range(48)]
+    # (and a few long sequences: dozens to hundreds of requests that reach
+    #  the switch in one delivery)
+    return [dict(count=1200, n=12, sub=i) for i in range(16)] + \
+        [dict(count=12, n=40 + 30 * i, sub=100 + i) for i in range(4)] + \
+        [dict(count=3, n=300, sub=110), dict(count=2, n=1100, sub=111)]
+  return [dict(count=20000, n=40, sub=i) for i in range(48)] + \
+      [dict(count=300, n=40 + 17 * i, sub=100 + i) for i in range(16)] + \
+      [dict(count=6, n=k, sub=200 + k) for k in (1030, 2050, 4100, 8200)]
 
 
 def run (spec, rep):
